@@ -208,6 +208,28 @@ func (e *Env) Connect(patience time.Duration, abort <-chan struct{}) {
 		e.Res.ConnectHung = true
 		e.Res.Notes = append(e.Res.Notes, "connect abandoned: the server could not continue the exchange")
 	case <-time.After(patience):
+		// still computing? the factorisation of pq is the only long computation of the exchange: give it 8 times the
+		// patience before the state (two dumps inside SplitPQ) is reported
+		if strings.Contains(Goroutines(), "math.SplitPQ") {
+			select {
+			case o := <-ch:
+				switch {
+				case o.pan != nil:
+					e.Res.ConnectPanic = fmt.Sprint(o.pan)
+				case o.err != nil:
+					e.Res.ConnectErr = o.err.Error()
+				default:
+					e.Res.Connected = true
+				}
+				return
+			case <-time.After(7 * patience):
+			}
+			if strings.Contains(Goroutines(), "math.SplitPQ") {
+				e.Res.ConnectHung = true
+				e.Res.Notes = append(e.Res.Notes, fmt.Sprintf("STUCK-IN-SPLITPQ after %v", 8*patience))
+				return
+			}
+		}
 		e.Res.ConnectHung = true
 		e.Res.Notes = append(e.Res.Notes, "connect did not return within the patience; goroutines:\n"+Goroutines())
 	}
